@@ -32,6 +32,53 @@ void __asan_unpoison_memory_region(void const volatile *addr, size_t size);
 #define VH_UNPOISON(a, n) ((void)0)
 #endif
 
+/* ---------------- definedness monitor ---------------- */
+#if defined(__has_feature)
+#if __has_feature(memory_sanitizer)
+#define VH_MSAN 1
+#endif
+#endif
+#ifdef VH_MSAN
+long __msan_test_shadow(const volatile void *x, size_t size);
+void __msan_poison(const volatile void *a, size_t size);
+void __msan_unpoison(const volatile void *a, size_t size);
+int vh_def_available(void) { return 1; }
+long vh_first_undef(const void *p, size_t n) { return n ? (long)__msan_test_shadow(p, n) : -1; }
+void vh_make_undef(void *p, size_t n) { __msan_poison(p, n); }
+void vh_make_def(void *p, size_t n) { __msan_unpoison(p, n); }
+#elif defined(VH_VALGRIND)
+int vh_def_available(void) { return RUNNING_ON_VALGRIND ? 1 : 0; }
+long vh_first_undef(const void *p, size_t n)
+{
+    unsigned char vb[256]; size_t off = 0;
+    if (!RUNNING_ON_VALGRIND) return -1;
+    while (off < n) {
+        size_t k = n - off < sizeof(vb) ? n - off : sizeof(vb), i;
+        if (VALGRIND_GET_VBITS((const char *)p + off, vb, k) != 1) return -1;
+        for (i = 0; i < k; ++i) if (vb[i]) return (long)(off + i);
+        off += k;
+    }
+    return -1;
+}
+void vh_make_undef(void *p, size_t n) { (void)VALGRIND_MAKE_MEM_UNDEFINED(p, n); }
+void vh_make_def(void *p, size_t n) { (void)VALGRIND_MAKE_MEM_DEFINED(p, n); }
+#else
+int vh_def_available(void) { return 0; }
+long vh_first_undef(const void *p, size_t n) { (void)p; (void)n; return -1; }
+void vh_make_undef(void *p, size_t n) { (void)p; (void)n; }
+void vh_make_def(void *p, size_t n) { (void)p; (void)n; }
+#endif
+int vh_check_defined(const char *what, const void *p, size_t n)
+{
+    long off = vh_first_undef(p, n);
+    char key[400], d[200];
+    if (off < 0) return 0;
+    snprintf(key, sizeof(key), "%s:undefined-%s", vh_sh->cur_key, what);
+    snprintf(d, sizeof(d), "{\"what\":\"%s\",\"size\":%lu,\"first_undefined_offset\":%ld}", what, (unsigned long)n, off);
+    vh_violation(key, d, NULL);
+    return 1;
+}
+
 /* ---------------- PRNG ---------------- */
 static uint64_t splitmix(uint64_t *x)
 {
